@@ -30,6 +30,16 @@ type C04Step struct {
 	// Listen: k>0 registers another OnReorg listener; k<0 cancels the live
 	// listener selected by -k (subscribers come and go while the node runs).
 	Listen int `json:"listen,omitempty"`
+	// Pool: a payment valid at the tip is handed to the transaction pool (v1 or
+	// v2 entry point); the tip does not change, so nobody may be notified.
+	Pool *PoolSub `json:"pool,omitempty"`
+}
+
+// PoolSub is one pool submission of a C04 case.
+type PoolSub struct {
+	Who  int  `json:"who"`
+	Pick int  `json:"pick"`
+	V2   bool `json:"v2,omitempty"`
 }
 
 // C04Case: history + subscribers.
@@ -76,6 +86,9 @@ func genC04(t *rapid.T) C04Case {
 		}
 		if kit.Chance(t, 8, "joinroll") {
 			c.Steps = append(c.Steps, C04Step{Join: true})
+		}
+		if kit.Chance(t, 15, "poolroll") {
+			c.Steps = append(c.Steps, C04Step{Pool: &PoolSub{Who: kit.Uniform(t, kit.NumActors, "who"), Pick: rapid.IntRange(0, 5).Draw(t, "pick"), V2: kit.Chance(t, 50, "v2")}})
 		}
 		if kit.Chance(t, 18, "listenroll") {
 			if kit.Chance(t, 60, "listen") {
@@ -463,6 +476,57 @@ func runC04(c C04Case, cs *kit.CaseStats) error {
 					cs.Class("listener-cancelled-that-is-not-the-newest")
 				}
 			}
+		case st.Pool != nil:
+			tn := node.TipNode()
+			if tn == nil || tn.Ledger == nil {
+				continue
+			}
+			child := tn.Height + 1
+			v2 := st.Pool.V2
+			if child < tr.Network.HardforkV2.AllowHeight {
+				v2 = false
+			} else if child >= tr.Network.HardforkV2.RequireHeight {
+				v2 = true
+			}
+			bb := kit.NewBlockBuilder(tn.Ledger)
+			bb.Absorb(node.CM.PoolTransactions(), node.CM.V2PoolTransactions())
+			bb.DropEphemeral()
+			w := st.Pool.Who % kit.NumActors
+			if !bb.Add(kit.Intent{Kind: "pay", V2: v2, Who: w, To: (w + 1) % kit.NumActors, Pick: st.Pool.Pick, Amt: 3, Fee: true}) {
+				continue
+			}
+			before := node.CM.Tip()
+			ncb := len(callbacks)
+			lgot := make([]int, len(listeners))
+			for i, l := range listeners {
+				lgot[i] = len(l.got)
+			}
+			var perr error
+			var entry string
+			if v2 && len(bb.V2Txns) > 0 {
+				entry = "AddV2PoolTransactions"
+				_, perr = node.CM.AddV2PoolTransactions(tn.Index(), bb.V2Txns)
+			} else if !v2 && len(bb.Txns) > 0 {
+				entry = "AddPoolTransactions"
+				_, perr = node.CM.AddPoolTransactions(bb.Txns)
+			} else {
+				continue
+			}
+			where := fmt.Sprintf("step %d (%s of a payment valid at the tip, err=%v)", si, entry, perr)
+			if after := node.CM.Tip(); after != before {
+				return fmt.Errorf("%s: the tip moved %v -> %v", where, before, after)
+			}
+			if got := callbacks[ncb:]; len(got) != 0 {
+				return fmt.Errorf("%s: reorg notification(s) %v although the tip did not change", where, got)
+			}
+			for i, l := range listeners {
+				if lg := l.got[lgot[i]:]; len(lg) != 0 {
+					return fmt.Errorf("%s: listener #%d got reorg notification(s) %v although the tip did not change", where, l.serial, lg)
+				}
+			}
+			if perr == nil {
+				cs.Class("pool-submission-accepted=" + entry)
+			}
 		case st.Join:
 			if tn := node.TipNode(); tn != nil && tn.Ledger != nil && len(subs) < 6 {
 				subs = append(subs, shadowFromLedger(tn.Ledger))
@@ -492,7 +556,7 @@ func runC04(c C04Case, cs *kit.CaseStats) error {
 
 var c04Prop = kit.Prop[C04Case]{
 	ID:   "C04",
-	Rule: "histories as in C02 interleaved with polls of 1..6 subscribers (starting from nothing, or joining at a tip they 'previously reached') with chunk sizes 1, 2, 3, 7, 1000, 2^40 and MaxInt, some left behind on stale branches for many steps. Every poll result is checked as a path (reverts start at the subscriber's index, undo only off-chain blocks, each leads to the parent; applies continue from there along the best chain; never more than requested, never fewer unless the tip is reached) and as content: a shadow ledger folded only from the returned diffs and proof updates (the canonical apply/revert fold) must equal the reference ledger of the index reached after every single update - element sets, values, leaf indices and Merkle proof bytes. OnReorg must fire exactly once with the new tip per call that moved the tip and never otherwise - for the listener registered at the start and for up to 12 more that are registered and cancelled (any of them, not only the newest) while the history runs; a cancelled listener is never called again. At the end every subscriber must reach the tip by polling. Non-trivial = a poll result with reverts and applies, a chunk boundary inside a reorg path, or a subscriber >= 2 blocks deep on a stale branch.",
+	Rule: "histories as in C02 interleaved with polls of 1..6 subscribers (starting from nothing, or joining at a tip they 'previously reached') with chunk sizes 1, 2, 3, 7, 1000, 2^40 and MaxInt, some left behind on stale branches for many steps. Every poll result is checked as a path (reverts start at the subscriber's index, undo only off-chain blocks, each leads to the parent; applies continue from there along the best chain; never more than requested, never fewer unless the tip is reached) and as content: a shadow ledger folded only from the returned diffs and proof updates (the canonical apply/revert fold) must equal the reference ledger of the index reached after every single update - element sets, values, leaf indices and Merkle proof bytes. OnReorg must fire exactly once with the new tip per call that moved the tip and never otherwise - for the listener registered at the start and for up to 12 more that are registered and cancelled (any of them, not only the newest) while the history runs; a cancelled listener is never called again; pool submissions (v1 and v2 entry points, payments valid at the tip) interleaved with the history never notify anybody. At the end every subscriber must reach the tip by polling. Non-trivial = a poll result with reverts and applies, a chunk boundary inside a reorg path, or a subscriber >= 2 blocks deep on a stale branch.",
 	Assumptions: []string{
 		"subscriber start indices are the zero index or indices that subscriber reached earlier (never-applied fork blocks carry no supplement and are legitimately refused)",
 		"sequential mode: one goroutine submits and polls; callbacks are therefore ordered",
